@@ -40,6 +40,7 @@ def _finish(prop, tier, seed, res, skipped, rule, bound, assumptions, extra_cov=
         "per_op": res.get("per_op", {}),
         "known_findings_hit": res.get("by_finding", {}),
         "saturated": res.get("saturated", []),
+        "rejected_at_run_time": res.get("rejected_at_run_time", []),
     }
     if extra_cov:
         cov.update(extra_cov)
@@ -512,6 +513,76 @@ class GeometryCheck:
         return self.run(prop, "quick", 0)
 
 
+class PermCheck(Elementwise):
+    """C05 / C19: generated compile-time mask programs (gen/gen_perm.py) + trial-compiled feature units."""
+
+    def __init__(self, harness, rule, bound):
+        Elementwise.__init__(self, [harness], rule, bound, probed=True)
+        self.harness = harness
+
+    def gen(self, tier, seed):
+        g = os.path.join(vlib.VERIF, "gen", "gen_perm.py")
+        hdr = subprocess.run([sys.executable, g, str(seed), tier], stdout=subprocess.PIPE, text=True).stdout
+        dat = subprocess.run([sys.executable, g, str(seed), tier, "data"], stdout=subprocess.PIPE, text=True).stdout
+        hp = os.path.join(vlib.BUILD, "gen", "perm_masks.%s.h" % tier)
+        dp = os.path.join(vlib.BUILD, "gen", "perm_masks.%s.dat" % tier)
+        vlib.write_if_changed(hp, hdr)
+        vlib.write_if_changed(dp, dat)
+        return hp, dp
+
+    def build(self, prop, tier="quick", seed=None):
+        if seed is None:
+            seed = vlib.tier_and_seed()[1]
+        hp, dp = self.gen(tier, seed)
+        self.tables = dp
+        run, skipped = vlib.runnable_archs()
+        res, errs, rej = vlib.build_modules_probed(self.harness, run, ['-DXV_PERM_MASKS="%s"' % hp])
+        self.rejected = {self.harness: {a: r for a, r in rej.items() if r}}
+        if errs:
+            for a, log in errs.items():
+                sys.stderr.write("---- build of harness %s for %s failed ----\n%s\n" % (self.harness, a, "\n".join([l for l in log.splitlines() if "error" in l][:20])))
+            print("[vcheck] %s: harness %s does not compile for %s against the current tree" % (prop, self.harness, ",".join(sorted(errs))))
+            sys.exit(2)
+        drv = vlib.build_driver("xvdrive")
+        return drv, [res[a] for a in run], run, skipped
+
+    def run(self, prop, tier, seed):
+        t0 = time.time()
+        drv, mods, run, skipped = self.build(prop, tier, seed)
+        os.makedirs(vlib.OUT, exist_ok=True)
+        out = os.path.join(vlib.OUT, "%s.%s.result.json" % (prop, tier))
+        known = ",".join(f["id"] for f in vlib.open_findings(prop))
+        cmd = [drv, "--prop", prop, "--tier", tier, "--seed", str(seed), "--out", out, "--threads", str(vlib.NPROC), "--perm-tables", self.tables,
+               "--deadline", str(self.deadline[1 if tier == "thorough" else 0])]
+        if known:
+            cmd += ["--known", known]
+        for m in mods:
+            cmd += ["--mod", m]
+        if subprocess.run(cmd).returncode != 0:
+            print("[vcheck] explorer failed")
+            return 2
+        res = json.load(open(out))
+        res["wall_s"] = time.time() - t0
+        bound = self.bound[tier] if isinstance(self.bound, dict) else self.bound
+        nrej = sum(len(t) for a in self.rejected.get(self.harness, {}).values() for t in a.values())
+        extra = {"not_accepted_by_library": self.rejected, "not_accepted_count": nrej, "programs": sum(1 for _ in open(self.tables))}
+        return _finish(prop, tier, seed, res, skipped, self.rule, bound, self.assumptions, extra)
+
+    def replay(self, prop, path):
+        v = json.load(open(path))
+        drv, mods, run, skipped = self.build(prop, "quick")
+        ins = ":".join(",".join(x) for x in v["in"])
+        cmd = [drv, "--prop", prop, "--perm-tables", self.tables, "--replay", "--op", v["op"], "--type", v["type"], "--arch", v["arch"], "--param", str(v.get("param", 0)), "--in", ins]
+        for m in mods:
+            cmd += ["--mod", m]
+        p = subprocess.run(cmd, stdout=subprocess.PIPE, text=True)
+        sys.stdout.write(p.stdout)
+        if p.returncode == 1:
+            print("VIOLATION property=%s replay=%s" % (prop, path))
+            return 1
+        return 0 if p.returncode == 0 else 2
+
+
 RULE_MATH = ("every point of the stated argument space is evaluated twice, once among neighbouring arguments and once in a strided order where "
              "the lanes of one batch come from 16 distant parts of the space, by every architecture's real kernel; each lane result is judged "
              "against the exact value (ulp bound inside the normal range, graceful-degradation predicate outside); states = arguments x orders; "
@@ -526,6 +597,9 @@ CHECKS = {
     "C01": Elementwise(["int"], RULE_EW, {
         "quick": "8-bit: all 65536 operand pairs x 64 lane offsets, ternary ALL8^2 x L8; 16-bit: ALL16 x L16, L16 x ALL16, L16^2 x 32 lane offsets; 32/64-bit: boundary lattice^2 (incl. 64 seed symbols) x all lane offsets; all 22 architectures",
         "thorough": "as quick plus all 2^32 16-bit operand pairs, ALL8^3 for the ternary operations, larger 32/64-bit lattices"}),
+    "C05": PermCheck("perm", "every compile-time mask of the generated families is one program (template instantiation) per (architecture, element type); which (operation, type) pairs the library accepts is decided by trial compilation; each program / count / run-time index vector / mask is executed on lane-tagged batches (every byte distinct; signalling-NaN payloads) and compared bit-exactly with the index-level definition of the property; states = (operation, parameter, tag assignment) points; transitions = lane results compared", {
+        "quick": "constant swizzle: all 4 / 256 masks for 2 / 4 lanes, 153..364 family masks per wider lane count (identity, reverse, every broadcast, every rotation, swaps, dup-low/high, evens/odds, unpack, in-128-bit-lane patterns replicated and taken from the next lane, every single deviation i->j, seed masks and permutations); constant shuffle: all 16 for 2 lanes, 145..292 masks hitting every detector (swizzle_fst/snd, zip_lo/hi, select, windows, AVX in-lane forms) and their one-index perturbations; run-time swizzle: all n^n index vectors for n <= 4, the families and pairs of deviations beyond; slide_left/right for every byte count in [0, register bytes]; rotate_left/right, extract_pair, insert, get for every index; zip_lo/hi; transpose; compress/expand for all 2^n masks (n <= 16) and ~450 structured masks for 32/64 lanes; all 22 architectures",
+        "thorough": "larger families (637..1031 swizzle masks per lane count, all 4096 4-lane shuffles, all 8^8 run-time index vectors for 8 lanes, 4096 seed masks for compress/expand on 32/64 lanes)"}),
     "C06": Elementwise(["conv"], RULE_EW, {
         "quick": "batch_cast for every same-width (From,To) pair, to_int/to_float, load_as/store_as/broadcast_as for all 100 (From,To) pairs, bitwise_cast for all 100 pairs and its involution; sources: 8/16-bit exhaustive, 32-bit lattice + windows + every 251st bit pattern, 64-bit lattice + windows of +-4 around 2^23..2^63 and all int->float half-way cases, doubles lattice + integer-boundary windows + every binade x 32 mantissas; only representable sources are judged; all 22 architectures",
         "thorough": "as quick with all 2^32 float32 and 32-bit integer sources"}),
